@@ -111,6 +111,7 @@ class Registry:
 REG = Registry()
 DEFINE_SQRT_QUOTIENTS = [False]
 BOOL_TO_NUM = ["fork"]
+MINMAX_FORK = [False]
 
 
 def new_registry():
@@ -338,6 +339,50 @@ def t_exp(u):
     return tm.mul(*factors)
 
 
+def _log_positive_product(p):
+    """log of c * prod atoms^k / prod factors^e as a sum of logs, when every piece is syntactically positive
+    (exp / softplus / positive variables): keeps  log(y) - log(1 - y)  with y = E/(1+E)  algebraic."""
+    from . import poly
+
+    try:
+        r = poly.Expander().rat(p).cancel()
+    except (poly.TooBig, RecursionError, ZeroDivisionError):
+        return None
+    if not r.num:
+        return None
+    pieces = []
+    # numerator: a single monomial, or a positive polynomial kept as one log atom
+    if len(r.num) == 1:
+        (mono, c), = r.num.items()
+        if c <= 0:
+            return None
+        for aid, e in mono:
+            a = poly._ATOMS[aid]
+            if sign_of(a) != "+":
+                return None
+            pieces.append((Fraction(e), a))
+        const = Fraction(c)
+    else:
+        nt = poly.poly_term(r.num)
+        if sign_of(nt) != "+":
+            return None
+        pieces.append((Fraction(1), nt))
+        const = Fraction(1)
+    for k, (f, e) in r.den.items():
+        ft = poly.poly_term(f)
+        s_ = sign_of(ft)
+        if s_ != "+":
+            return None
+        pieces.append((Fraction(-e), ft))
+    if len(pieces) == 1 and pieces[0][0] == 1 and const == 1 and pieces[0][1] is p:
+        return None
+    out = [t_log(tm.const(const))] if const != 1 else []
+    for k, a in pieces:
+        la = a.args[1] if (a.op == "app" and a.args[0] == "exp") else tm.app("log", [a])
+        out.append(tm.scale(k, la))
+    return tm.add(*out) if out else tm.ZERO
+
+
 def t_log(p):
     if p.op == "const":
         v = p.args[0]
@@ -352,6 +397,10 @@ def t_log(p):
         return p.args[1]
     if p.op == "ite":
         return tm.ite(p.args[0], t_log(p.args[1]), t_log(p.args[2]))
+    if p.op in ("mul", "add") and tm.size(p) < 60 and any(a.args[0] in ("exp", "softplus") for a in tm.atoms(p)):
+        r = _log_positive_product(p)
+        if r is not None:
+            return r
     return tm.app("log", [p])
 
 
@@ -415,10 +464,14 @@ def t_sign(u):
 def t_atan(u):
     if u.op == "const" and u.args[0] == 0:
         return tm.ZERO
-    if u.op == "app" and u.args[0] == "tan" and u.args[2:] == ("principal",):
-        return u.args[1]
+    if u.op == "app" and u.args[0] == "tan" and len(u.args) == 2:
+        # atan(tan(v)) == v on the principal branch; the branch condition is an obligation of the path
+        v = u.args[1]
+        hp = tm.scale(Fraction(1, 2), REG.pi) if getattr(REG, "pi", None) is not None else tm.const(Fraction(15707963267948966, 10 ** 16))
+        oblige("principal-branch", tm.and_(tm.lt(v, hp), tm.gt(v, tm.neg(hp))), "atan(tan(v)) == v needs |v| < pi/2")
+        return v
     a = tm.app("atan", [u])
-    half_pi = tm.const(Fraction(15707963267948967, 10 ** 16))
+    half_pi = tm.scale(Fraction(1, 2), REG.pi) if getattr(REG, "pi", None) is not None else tm.const(Fraction(15707963267948967, 10 ** 16))
     REG.add_axiom(a, tm.lt(a, half_pi))
     REG.add_axiom(a, tm.gt(a, tm.neg(half_pi)))
     return a
@@ -936,6 +989,8 @@ def s_min(a, b):
         return a
     if kt is False:
         return b
+    if MINMAX_FORK[0] and explore.current() is not None:
+        return a if explore.decide(c) else b
     return s_where(S(c), a, b)
 
 
@@ -947,6 +1002,8 @@ def s_max(a, b):
         return a
     if kt is False:
         return b
+    if MINMAX_FORK[0] and explore.current() is not None:
+        return a if explore.decide(c) else b
     return s_where(S(c), a, b)
 
 
